@@ -307,15 +307,15 @@ VF_TYPE(ListS, {}, ListS{"l1" VF_COMMA "l 2"}, ListS{});
 VF_TYPE(FwdI, {}, FwdI{9 VF_COMMA 8 VF_COMMA 7}, FwdI{});
 VF_TYPE(SetI, {}, SetI{3 VF_COMMA 1 VF_COMMA 2}, SetI{});
 VF_TYPE(MSetS, {}, MSetS{"b" VF_COMMA "a" VF_COMMA "a"}, MSetS{});
-VF_TYPE(MapIS, {}, MapIS{{2 VF_COMMA "two"} VF_COMMA {1 VF_COMMA ""}}, MapIS{});
+VF_TYPE(MapIS, {}, MapIS{{2 VF_COMMA "two"} VF_COMMA {1 VF_COMMA ""}}, MapIS{}, MapIS{{3 VF_COMMA std::string(40 VF_COMMA 'm')}});
 VF_TYPE(MapSVecI, {}, MapSVecI{{"k" VF_COMMA VecI{1 VF_COMMA 2}} VF_COMMA {"" VF_COMMA VecI{}}});
-VF_TYPE(MMapSI, {}, MMapSI{{"k" VF_COMMA 1} VF_COMMA {"k" VF_COMMA 2}}, MMapSI{});
+VF_TYPE(MMapSI, {}, MMapSI{{"k" VF_COMMA 1} VF_COMMA {"k" VF_COMMA 2}}, MMapSI{}, MMapSI{{std::string(40 VF_COMMA 'k') VF_COMMA 1}});
 // unordered containers: at most one element in the generic enumeration (no order ambiguity); larger ones are
 // compared as character multisets in a dedicated pass
 VF_TYPE(USetI, {true}, USetI{}, USetI{42});
 VF_TYPE(UMSetS, {true}, UMSetS{}, UMSetS{"only"});
-VF_TYPE(UMapSI, {true}, UMapSI{}, UMapSI{{"key" VF_COMMA -5}});
-VF_TYPE(UMMapIS, {true}, UMMapIS{}, UMMapIS{{1 VF_COMMA "one"}});
+VF_TYPE(UMapSI, {true}, UMapSI{}, UMapSI{{"key" VF_COMMA -5}}, UMapSI{{std::string(40 VF_COMMA 'u') VF_COMMA 1}});
+VF_TYPE(UMMapIS, {true}, UMMapIS{}, UMMapIS{{1 VF_COMMA "one"}}, UMMapIS{{2 VF_COMMA std::string(40 VF_COMMA 'w')}});
 VF_TYPE(OptI, {}, OptI{}, OptI{0}, OptI{-7});
 VF_TYPE(OptS, {}, OptS{}, OptS{""}, OptS{std::string(13, 'o')});
 VF_TYPE(OptPairIS, {}, OptPairIS{}, OptPairIS{PairIS{1 VF_COMMA "p"}});
